@@ -741,23 +741,48 @@ func (w *World) perContextNode(P string, f *Facts, r *Roles) {
 						}
 					}
 				}
+				var evalCalls []*ssa.Call // evaluations in the one-node context
 				for _, rr := range referrers(al) {
-					if c, ok := rr.(*ssa.Call); ok && loops[c.Block()] {
+					if c, ok := rr.(*ssa.Call); ok {
 						if sc := staticCallee(c); sc != nil && fnPkgKey(sc) == "exec" {
-							usedInLoop = true
+							evalCalls = append(evalCalls, c)
+							if loops[c.Block()] {
+								usedInLoop = true
+							}
 						}
+					}
+				}
+				// the loop may be in the caller: the per-node work was moved into a helper that is called once per
+				// element of the node-set
+				var outerSites []*ssa.Call
+				if fromCopy && oneNode && !usedInLoop && len(evalCalls) > 0 {
+					for _, g := range w.handlerClosure(h.Fn) {
+						gl := loopBlocks(g)
+						allInstrs(g, func(in2 ssa.Instruction) {
+							if c2, ok := in2.(*ssa.Call); ok && staticCallee(c2) == fn && gl[c2.Block()] {
+								outerSites = append(outerSites, c2)
+							}
+						})
+					}
+					if len(outerSites) > 0 {
+						usedInLoop = true
 					}
 				}
 				if fromCopy && oneNode && usedInLoop {
 					// the per-node pass must not be conditional on anything but the production shape,
 					// the result being a node-set and its size
 					okGuards := true
-					for _, rr := range referrers(al) {
-						c, ok := rr.(*ssa.Call)
-						if !ok || !loops[c.Block()] {
-							continue
+					var sites []*ssa.BasicBlock
+					for _, c := range evalCalls {
+						if loops[c.Block()] || len(outerSites) > 0 {
+							sites = append(sites, c.Block())
 						}
-						for _, a := range guardAtoms(c.Block()) {
+					}
+					for _, c := range outerSites {
+						sites = append(sites, c.Block())
+					}
+					for _, b := range sites {
+						for _, a := range guardAtoms(b) {
 							if !plainStepGuard(a.V) {
 								okGuards = false
 								badGuard = describe(a.V)
@@ -785,10 +810,37 @@ func (w *World) perContextNode(P string, f *Facts, r *Roles) {
 // plainStepGuard: conditions under which the per-context-node pass may be skipped: tests of the child
 // nonterminal, of the result being a node-set, of its length, loop bounds and error tests.
 func plainStepGuard(v ssa.Value) bool {
+	isNT := func(t types.Type) bool {
+		n, ok := types.Unalias(t).(*types.Named)
+		return ok && n.Obj().Name() == "NT"
+	}
 	switch x := v.(type) {
 	case *ssa.Extract:
 		_, isTA := x.Tuple.(*ssa.TypeAssert)
 		return isTA
+	case *ssa.Call:
+		// a predicate of the package on the nonterminal of the step ("has predicates")
+		if h := staticCallee(x); h != nil && inRepo(h) && len(h.Params) == 1 && isNT(h.Params[0].Type()) {
+			return true
+		}
+	case *ssa.Lookup:
+		// membership of the nonterminal in a set literal
+		if mt, ok := x.X.Type().Underlying().(*types.Map); ok && isNT(mt.Key()) {
+			return true
+		}
+	case *ssa.Phi:
+		// a boolean assembled from such tests (`hasPredicate := nt == A || nt == B`, `ok && len(s) > 1`)
+		if b, ok := x.Type().Underlying().(*types.Basic); ok && b.Kind() == types.Bool {
+			for _, e := range x.Edges {
+				if _, isC := e.(*ssa.Const); isC {
+					continue
+				}
+				if !plainStepGuard(e) {
+					return false
+				}
+			}
+			return true
+		}
 	case *ssa.BinOp:
 		if n, ok := types.Unalias(x.X.Type()).(*types.Named); ok && n.Obj().Name() == "NT" {
 			return true
